@@ -2140,3 +2140,64 @@ func c16TemporaryByBasicCode(c *Check, rule string) {
 	}
 	c.Hold(rule, "SMTPError.Temporary:by-basic-code", r.FI.Decl.Pos(), msg == "", msg)
 }
+
+// ---- C03.R6b: a target is started once per transaction.
+// msgpipelineDelivery.getDelivery hands out the delivery already open for a target and starts one only when there is
+// none. A Start for a target that has an entry (the presence test negated – a survivor of the mutant run of round 12)
+// overwrites the entry: the first delivery is never committed or aborted, and on the other branch a nil delivery is
+// handed out. Decided in the world "the table has an entry for the target": the target's Start is unreachable.
+func c03StartOnlyWhenAbsent(c *Check, rule string) {
+	c.Rule(rule, "msgpipelineDelivery.getDelivery: the target's Start is unreachable when the table of open deliveries already has an entry for the target (a second Start would overwrite the entry – the first delivery is never closed)", 1)
+	r := c.need(rule, pipelineRel, "msgpipelineDelivery", "getDelivery")
+	if r == nil {
+		return
+	}
+	info := r.Info
+	var okObj, valObj types.Object
+	ast.Inspect(r.FI.Decl.Body, func(x ast.Node) bool {
+		as, isAs := x.(*ast.AssignStmt)
+		if !isAs || len(as.Rhs) != 1 {
+			return true
+		}
+		ix, isIx := ast.Unparen(as.Rhs[0]).(*ast.IndexExpr)
+		if !isIx {
+			return true
+		}
+		if t := info.TypeOf(ix.X); t == nil {
+			return true
+		} else if _, isMap := t.Underlying().(*types.Map); !isMap {
+			return true
+		}
+		if fieldOf(info, ix.X) == nil {
+			return true
+		}
+		valObj = objOf(info, as.Lhs[0])
+		if len(as.Lhs) == 2 {
+			okObj = objOf(info, as.Lhs[1])
+		}
+		return true
+	})
+	if valObj == nil && okObj == nil {
+		c.Fail(rule, "getDelivery:lookup", r.FI.Decl.Pos(), "undecided: no look-up in the table of open deliveries")
+		return
+	}
+	starts := r.Calls(func(info *types.Info, call *ast.CallExpr) bool {
+		return qname(callee(info, call)) == modulePkg+".DeliveryTarget.Start"
+	})
+	if len(starts) == 0 {
+		c.Fail(rule, "getDelivery:start", r.FI.Decl.Pos(), "undecided: no target Start")
+		return
+	}
+	world := r.F.World(func(atom ast.Expr) (bool, bool) {
+		a := ast.Unparen(atom)
+		if id, isID := a.(*ast.Ident); isID && okObj != nil && objOf(info, id) == okObj {
+			return true, true
+		}
+		if be, isBE := a.(*ast.BinaryExpr); isBE && (be.Op == token.EQL || be.Op == token.NEQ) && isNilIdent(info, be.Y) && valObj != nil && objOf(info, be.X) == valObj {
+			return be.Op == token.NEQ, true
+		}
+		return false, false
+	})
+	path, found := r.F.Reach(Query{From: r.Entry(), Inclusive: true, Target: isPt(starts), AvoidEdge: world})
+	c.Hold(rule, "getDelivery:start-only-when-absent", r.FI.Decl.Pos(), !found, "the target is started although the table already holds a delivery for it ("+r.F.Describe(path)+"): the entry is overwritten, the first delivery is neither committed nor aborted when the transaction ends")
+}
